@@ -185,8 +185,9 @@ Section Node.
   Definition tx_valid (u : list slip) (next : N) (t : tx) : bool :=
     tx_static t && negb (user_tx t && too_old next t) && tx_ledger u t.
 
-  (* the final sweep: all valid, no value input (Bound excepted) twice, fee transactions skipped *)
-  Definition valuable (s : slip) : bool := negb (s_amt s =? 0) && negb (is_bound s).
+  (* the final sweep: all valid, no input with an amount twice (Bound slips included since 2a74b4d),
+     fee transactions skipped *)
+  Definition valuable (s : slip) : bool := negb (s_amt s =? 0).
   Fixpoint add_keys (seen ks : list slip) : option (list slip) :=
     match ks with
     | [] => Some seen
